@@ -1217,6 +1217,7 @@ class Interp:
         for p, a in zip(f['params'], args):
             self.bind(p['pat'], a, env)
         fr['nconds0'] = len(fr['conds'])
+        fr['nloops0'] = len(fr['loops'])
         val = self.block(f['body'], env)
         if val[0] == 'acc':
             saved = fr['conds']
@@ -2266,6 +2267,9 @@ class Interp:
         if fn[0] == 'path' and fn[1] in self.c.fns:
             self.inline_calls.append((self.frame['callee'], fn[1], 0))
             return self.call_fn(fn[1], args)
+        if fn[0] == 'path' and len(args) == 2 and fn[1].split('::')[-1] in ('max', 'min') and \
+                fn[1].rsplit('::', 1)[0].split('::')[-1] in ('usize', 'u32', 'u64', 'i32', 'i64', 'u8', 'u16', 'Ord', 'cmp'):
+            return ('mcall', args[0], fn[1].split('::')[-1], [args[1]])        # `usize::max` / `std::cmp::max` passed as a function: a.max(b)
         return ('callv', fn, args)
 
     def apply_detached(self, clo, args):
@@ -2422,6 +2426,16 @@ class Interp:
                     new = ('reorder', self.acc_view(recv), 'dedup_all_by_key', [clo, r[1]], self.pathcond())
                     env.assign(e['recv']['path']['segs'][0], new)
                     return ('tuple', [])
+        if m == 'retain' and len(e['args']) == 1 and e['recv']['k'] == 'Path' and len(e['recv']['path']['segs']) == 1 and \
+                len(self.frame['loops']) == self.frame.get('nloops0', 0) and len(self.frame['conds']) == self.frame.get('nconds0', 0) and \
+                e['args'][0].get('k') == 'Closure' and recv[0] not in ('unknown', 'new', 'mcall', 'call', 'callv', 'diverge', 'lit'):
+            # `list.retain(|x| keep(x))` with a side-effect-free predicate, outside any loop or branch of its function: from here on the variable denotes the
+            # elements that satisfy it, in their order - the sequence `.filter(keep)` yields
+            n0_ = len(self.effects.get(self.frames[0]['fn'], []))
+            filt = self.iter_method('filter', self.acc_view(recv), e['args'], env, e)
+            if filt[0] == 'star' and len(self.effects.get(self.frames[0]['fn'], [])) == n0_:
+                env.assign(e['recv']['path']['segs'][0], filt)
+                return ('tuple', [])
         if m in ('push', 'insert', 'extend', 'push_str', 'remove', 'clear', 'retain', 'update') or \
                 (m in self.LIST_MUTATORS and recv[0] in ('acc', 'star', 'reorder', 'tuple')):
             args = [self.expr(a, env) for a in e['args']]
